@@ -25,6 +25,10 @@ type caseB struct {
 	MaxStr string `json:"max_str,omitempty"` // raw max-keys value (overrides Max when set)
 	Upload bool   `json:"upload,omitempty"`  // a multipart upload with one staged part is in progress in the bucket
 	Past   []past `json:"past,omitempty"`    // what else happened in the bucket and left no object
+	// Versioning: "" = never switched on; "enabled" = switched on before anything is stored (a deleted key leaves a delete
+	// marker behind, an overwritten one an archived version: neither is a key of the bucket); "suspended" = switched on,
+	// then suspended after the first half of the past requests
+	Versioning string `json:"versioning,omitempty"`
 }
 
 // past: a key that was named by a request and holds nothing now
@@ -49,12 +53,21 @@ func setup() error {
 	if err != nil {
 		return err
 	}
-	eng, err = gw.StartInProc(gw.Config{SB: sb})
+	eng, err = gw.StartInProc(gw.Config{SB: sb, Versioning: true})
 	if err != nil {
 		return err
 	}
 	cl = s3c.NewClient(eng, gw.DefaultRoot)
 	return nil
+}
+
+func belowDirObject(key string, dirs []string) bool {
+	for _, d := range dirs {
+		if strings.HasPrefix(key, d) {
+			return true
+		}
+	}
+	return false
 }
 
 func bodyOf(key string) []byte { return []byte("body of " + key) }
@@ -72,8 +85,26 @@ func runB(c caseB) error {
 		return fmt.Errorf("SETUP: create bucket: %v", r)
 	}
 	defer os.RemoveAll(filepath.Join(sb.Root, bkt))
+	defer os.RemoveAll(filepath.Join(sb.Ver, bkt))
+	setVersioning := func(status string) error {
+		if r := cl.MustCall("PUT", "/"+bkt, s3c.Q("versioning", ""), nil, []byte("<VersioningConfiguration><Status>"+status+"</Status></VersioningConfiguration>")); !r.OK() {
+			return fmt.Errorf("SETUP: versioning %s: %v", status, r)
+		}
+		return nil
+	}
+	if c.Versioning != "" {
+		if err := setVersioning("Enabled"); err != nil {
+			return err
+		}
+	}
 	etags := map[string]string{}
-	for _, k := range c.Files {
+	for i, k := range c.Files {
+		if c.Versioning != "" && i%2 == 0 {
+			// an earlier version of the key: archived by the overwrite, not a key
+			if r := cl.MustCall("PUT", "/"+bkt+"/"+k, nil, nil, []byte("an earlier version")); !r.OK() {
+				return fmt.Errorf("SETUP: put %q: %v", k, r)
+			}
+		}
 		r := cl.MustCall("PUT", "/"+bkt+"/"+k, nil, nil, bodyOf(k))
 		if !r.OK() {
 			return fmt.Errorf("SETUP: put %q: %v", k, r)
@@ -87,8 +118,18 @@ func runB(c caseB) error {
 		}
 		etags[k] = s3c.ETag(r.Header.Get("ETag"))
 	}
-	for _, p := range c.Past {
+	for i, p := range c.Past {
+		if c.Versioning == "suspended" && i == len(c.Past)/2 {
+			if err := setVersioning("Suspended"); err != nil {
+				return err
+			}
+		}
 		if _, exists := etags[p.Key]; exists || etags[p.Key+"/"] != "" {
+			continue
+		}
+		if c.Versioning != "" && c.Delimiter != "" && p.Kind == "deleted" && belowDirObject(p.Key, c.Dirs) {
+			// (the delete marker is a file in the directory of that directory object: "a directory object with
+			// children is only ever a prefix under a delimiter" - the mapping's stated restriction, see valid())
 			continue
 		}
 		path := "/" + bkt + "/" + p.Key
@@ -240,7 +281,8 @@ func TestC07B(t *testing.T) {
 			ev.Exclude("B:precondition (file/directory clash)")
 			t.Skip("precondition")
 		}
-		if rapid.IntRange(0, 2).Draw(t, "has_past") == 0 {
+		c.Versioning = rapid.SampledFrom([]string{"", "", "", "", "", "enabled", "enabled", "suspended"}).Draw(t, "versioning")
+		if rapid.IntRange(0, 2).Draw(t, "has_past") == 0 || c.Versioning != "" {
 			// requests that named other keys and left nothing: nothing of them may be listed
 			np := rapid.IntRange(1, 3).Draw(t, "npast")
 			for i := 0; i < np; i++ {
@@ -256,7 +298,11 @@ func TestC07B(t *testing.T) {
 				if strings.HasPrefix(k, tmpDir) {
 					continue
 				}
-				c.Past = append(c.Past, past{Key: k, Kind: rapid.SampledFrom([]string{"refused", "refused", "deleted", "aborted"}).Draw(t, "past_kind")})
+				kinds := []string{"refused", "refused", "deleted", "aborted"}
+				if c.Versioning != "" {
+					kinds = []string{"deleted", "deleted", "deleted", "refused", "aborted"}
+				}
+				c.Past = append(c.Past, past{Key: k, Kind: rapid.SampledFrom(kinds).Draw(t, "past_kind")})
 			}
 		}
 		ev.Trace("C07B", c)
@@ -267,7 +313,10 @@ func TestC07B(t *testing.T) {
 		for _, p := range c.Past {
 			classes = append(classes, "B:past:"+p.Kind)
 		}
-		fp += fmt.Sprint(c.Past)
+		fp += fmt.Sprint(c.Past, c.Versioning)
+		if c.Versioning != "" {
+			classes = append(classes, "B:versioning-"+c.Versioning)
+		}
 		if c.V2 {
 			classes = append(classes, "B:v2")
 		} else {
